@@ -81,8 +81,9 @@ class Env:
         if type(t) is ts.Type:
             return ["any"]
         if isinstance(t, ts.Tensor):
-            sh = t._shape.to_simple()
-            return ["t", self.cid(t._elem_type), None if sh is None else list(sh)]
+            sh = t.shape  # public: the simple shape
+            cls = getattr(t, "_elem_type", None) or t.dtype.type
+            return ["t", self.cid(cls), None if sh is None else list(sh)]
         if isinstance(t, ts.Sequence):
             return ["s", self.enc(t.elem_type)]
         if isinstance(t, ts.Optional):
@@ -132,6 +133,30 @@ class Env:
 
 
 # --------------------------------------------------------------------------- own definitions (oracle side)
+class NotObservable(Exception):
+    """The harness could not reach an internal it observes (renamed / removed / changed signature)."""
+
+
+def internal(obj, name):
+    try:
+        return getattr(obj, name)
+    except AttributeError as e:
+        raise NotObservable(f"{type(obj).__name__}.{name}: {e}") from e
+
+
+def onnx_code_of(env, obj):
+    """ONNX element code of a spelling, computed without spox."""
+    np, onnx = env.np, env.onnx
+    with warnings.catch_warnings():
+        warnings.simplefilter("ignore")
+        d = np.dtype(obj)
+    if d.kind == "U":
+        return int(onnx.TensorProto.STRING)
+    if d.byteorder in "<>":
+        d = d.newbyteorder("=")
+    return int(onnx.helper.np_dtype_to_tensor_dtype(d))
+
+
 def conforms_dims(conc, shape):
     """The statement: a concrete shape conforms iff rank unknown, or same rank and constants agree."""
     if shape is None:
@@ -189,26 +214,56 @@ def aspect(a, b):
 
 # --------------------------------------------------------------------------- single-case oracles (used by run and replay)
 def check_roundtrip(env: Env, ty):
-    """None if fine, else (key, what)."""
+    """None if fine, else (key, what). Through the anchored methods _to_onnx / _from_onnx."""
     try:
         t = env.mk(ty)
     except Exception as e:  # noqa: BLE001
-        return None if False else ("roundtrip:construct-error", f"{ty}: {type(e).__name__}")
+        return ("roundtrip:construct-error", f"{ty}: {type(e).__name__}")
+    to_onnx = internal(t, "_to_onnx")
+    from_onnx = internal(env.ts.Type, "_from_onnx")
+    sub = internal(t, "_subtype")
     try:
-        p = t._to_onnx()
+        p = to_onnx()
         p2 = env.onnx.TypeProto.FromString(p.SerializeToString())  # the real wire format
-        back = env.ts.Type._from_onnx(p2)
+        back = from_onnx(p2)
     except Exception as e:  # noqa: BLE001
         return ("roundtrip:raises", f"{t!r}: {type(e).__name__}: {e}")
-    if back != t or hash(back) != hash(t) or not t._subtype(back) or not back._subtype(t):
-        _, leaf = skeleton(ty)
-        _, bl = skeleton(env.enc(back))
+    if back != t or hash(back) != hash(t) or not sub(back) or not back._subtype(t):
+        return (f"roundtrip:{diff_kind(env, t, back)}", f"{t!r} -> ONNX -> {back!r} (equal={back == t})")
+    return None
+
+
+def diff_kind(env: Env, t, back):
+    try:
+        bl = skeleton(env.enc(back))[1]
         tl = skeleton(env.enc(t))[1]
-        kind = "shape" if tl[2] != bl[2] else "other"
         if tl[1] != bl[1]:
             cls = env.classes[tl[1]].__name__ if 0 <= tl[1] < len(env.classes) else "?"
-            kind = f"elem-class:{cls}"
-        return (f"roundtrip:{kind}", f"{t!r} -> ONNX -> {back!r} (equal={back == t})")
+            return f"elem-class:{cls}"
+        return "shape" if tl[2] != bl[2] else "other"
+    except Exception:  # noqa: BLE001
+        return "other"
+
+
+def check_roundtrip_public(env: Env, ty):
+    """The same statement through the public API only: the type of a model input written by `build`
+    (type -> ONNX) and read back by `inline` (ONNX -> type). Tensor types of known rank."""
+    import spox.opset.ai.onnx.v17 as op
+    from spox import argument, build, inline
+
+    t = env.mk(ty)
+    with warnings.catch_warnings():
+        warnings.simplefilter("ignore")
+        x = argument(t)
+        try:
+            model = build({"x": x}, {"y": op.identity(x)})
+            back = inline(model)(argument(t))["y"].type
+        except Exception as e:  # noqa: BLE001
+            return ("roundtrip:raises", f"build/inline of a value of type {t!r}: {type(e).__name__}: {e}")
+    # `inline` deliberately anonymises dimension names of the inlined model: compare modulo names
+    anon = env.ts.Tensor(t.dtype, None if t.shape is None else tuple(None if isinstance(d, str) else d for d in t.shape))
+    if back != anon or hash(back) != hash(anon):
+        return (f"roundtrip:{diff_kind(env, anon, back)}", f"{t!r} -> build -> inline -> {back!r} (expected {anon!r})")
     return None
 
 
@@ -218,9 +273,11 @@ def check_spelling_pair(env: Env, s1, s2, shape):
         b = env.ts.Tensor(env.spell[s2], shape)
     except Exception as e:  # noqa: BLE001
         return ("spelling:construct-error", f"{s1}/{s2}: {type(e).__name__}")
-    if a != b or hash(a) != hash(b) or not a._subtype(b) or not b._subtype(a):
-        return ("spelling-unequal", f"Tensor({s1}) = {a!r} vs Tensor({s2}) = {b!r}: equal={a == b} "
-                                    f"subtype={a._subtype(b)}/{b._subtype(a)}")
+    sub_ok = True
+    if hasattr(a, "_subtype"):
+        sub_ok = a._subtype(b) and b._subtype(a)
+    if a != b or hash(a) != hash(b) or not sub_ok:
+        return ("spelling-unequal", f"Tensor({s1}) = {a!r} vs Tensor({s2}) = {b!r}: equal={a == b} mutually compatible={sub_ok}")
     return None
 
 
@@ -245,15 +302,15 @@ def has_common_value(env: Env, a, b, rank=3):
     wb, lb = skeleton(b)
     if wa != wb:
         return False
-    ca = int(env.spox._utils.dtype_to_tensor_type(env.spell[la[1]]))
-    cb = int(env.spox._utils.dtype_to_tensor_type(env.spell[lb[1]]))
+    ca = onnx_code_of(env, env.spell[la[1]])
+    cb = onnx_code_of(env, env.spell[lb[1]])
     if ca != cb:
         return False
     return any(conforms_dims(s, la[2]) and conforms_dims(s, lb[2]) for s in conc_shapes(rank))
 
 
 def check_subtype(env: Env, a, b):
-    real = bool(env.mk(a)._subtype(env.mk(b)))
+    real = bool(internal(env.mk(a), "_subtype")(env.mk(b)))
     want = has_common_value(env, a, b)
     if real != want:
         how = "accepted-without-common-value" if real else "rejected-with-common-value"
@@ -264,10 +321,12 @@ def check_subtype(env: Env, a, b):
 
 def check_broadcast(env: Env, a, b, np_cache=None):
     np = env.np
-    Shape, ShapeError = env.sh.Shape, env.sh.ShapeError
+    Shape, ShapeError = internal(env.sh, "Shape"), internal(env.sh, "ShapeError")
+    sa = internal(Shape, "from_simple")(None if a is None else tuple(a))
+    sb = internal(Shape, "from_simple")(None if b is None else tuple(b))
+    bc = internal(sa, "broadcast")
     try:
-        c = Shape.from_simple(None if a is None else tuple(a)).broadcast(
-            Shape.from_simple(None if b is None else tuple(b))).to_simple()
+        c = internal(bc(sb), "to_simple")()
         raised = False
     except ShapeError:
         c, raised = None, True
@@ -339,6 +398,7 @@ def check_inline_boundary(env: Env, a, b):
 
 CHECKS = {
     "roundtrip": lambda env, c: check_roundtrip(env, c["type"]),
+    "roundtrip_public": lambda env, c: check_roundtrip_public(env, c["type"]),
     "spelling": lambda env, c: check_spelling_pair(env, c["s1"], c["s2"], None if c["shape"] is None else tuple(c["shape"])),
     "refusal": lambda env, c: check_refusal(env, c["name"], c["defined"]),
     "subtype": lambda env, c: check_subtype(env, c["a"], c["b"]),
@@ -364,6 +424,8 @@ def run(ck: core.Check):
         "refused": sum(1 for r in table["spellings"] if r["cls"] is None),
         "onnx_codes": len(table["enum"]),
     }
+    for msg in table.get("unobservable", []):
+        ck.broken("correspondence", "C13 element-type functions not observable", msg)
     ck.lean(["SpoxModel.Props.C13"], audit="SpoxModel.Audit.C13")
     if ck.thorough:
         ck.leanchecker(["SpoxModel.Props.C13"])
@@ -376,32 +438,28 @@ def run(ck: core.Check):
     E = ["cls:numpy.float32", "cls:numpy.int64"]
     shapes = shapes_upto(R)
     nshapes = shapes_upto(RN)
+    m = len(shapes)
+    unobservable = set()
 
-    # ---------------------------------------------------------------- element types (oracle on the real code)
-    by_code: dict = {}
-    for r in table["spellings"]:
-        bad = check_refusal(env, r["name"], r["defined"])
-        ck.count(("refusal", r["name"]))
-        if bad:
-            ck.failure(f"{bad[0]}:{r['name']}", bad[1], {"check": "refusal", "name": r["name"], "defined": r["defined"]})
-        if r["code"] is not None and r["cls"] is not None:
-            by_code.setdefault(r["code"], []).append(r["name"])
-    code_name = {int(v): k for k, v in env.onnx.TensorProto.DataType.items()}
-    n_pairs = 0
-    for code, names in sorted(by_code.items()):
-        for s1, s2 in itertools.combinations(names, 2):
-            shape = rng.choice([None, (), (2, "N"), (None,)])
-            bad = check_spelling_pair(env, s1, s2, shape)
-            n_pairs += 1
-            if bad:
-                ck.failure(f"{bad[0]}:{code_name.get(code, code)}", bad[1],
-                           {"check": "spelling", "s1": s1, "s2": s2, "shape": None if shape is None else list(shape)})
-        ck.count(("spelling-group", code), len(names))
-    ck.cov["spelling_pairs_compared"] = n_pairs
-    if len(by_code) < 10:
-        ck.broken("generator", "C13 spelling table", f"only {len(by_code)} accepted element types")
+    def guard(facet, fn):
+        """Run one facet; failing to observe spox (renamed internals, exceptions in the observation code)
+        is registered, never raised: the other facets and the public-API oracles still run."""
+        try:
+            return fn()
+        except Exception as e:  # noqa: BLE001
+            unobservable.add(facet)
+            ck.broken("correspondence", f"C13 {facet} not observable", f"{type(e).__name__}: {e}")
+            return None
 
-    # round trip of every accepted spelling x a few shapes x every nesting
+    drv = guard("driver", ck.driver)
+    mism = {"sub": 0, "le": 0, "bc": 0, "rt": 0, "from": 0, "np": 0}
+
+    def note(kind, detail):
+        mism[kind] += 1
+        if mism[kind] <= 3:
+            ck.broken("correspondence", f"C13 model-vs-implementation {kind}", detail)
+
+    # ---------------------------------------------------------------- domains
     rt_types = []
     some_shapes = [None, [], [2], ["N", None, 3], [0, "M"]]
     for r in table["spellings"]:
@@ -416,30 +474,6 @@ def run(ck: core.Check):
         for w in WRAPS:
             for sh in nshapes:
                 rt_types.append(wrap(["t", e, sh], w))
-    n_rt_bad = 0
-    for ty in rt_types:
-        bad = check_roundtrip(env, ty)
-        ck.count(("roundtrip", repr(ty)))
-        if bad:
-            n_rt_bad += 1
-            ck.failure(bad[0], bad[1], {"check": "roundtrip", "type": ty})
-    ck.cov["roundtrip_types"] = len(rt_types)
-
-    # ---------------------------------------------------------------- correspondence + exhaustive oracles
-    drv = None
-    try:
-        drv = ck.driver()
-    except Exception as e:  # noqa: BLE001
-        ck.broken("correspondence", "C13 driver", str(e))
-
-    mism = {"sub": 0, "le": 0, "bc": 0, "rt": 0, "from": 0, "np": 0}
-
-    def note(kind, detail):
-        mism[kind] += 1
-        if mism[kind] <= 3:
-            ck.broken("correspondence", f"C13 model-vs-implementation {kind}", detail)
-
-    # --- types for the pairwise sweep
     types = [["any"], ["s", ["any"]], ["o", ["any"]]]
     for e in E:
         for sh in shapes:
@@ -451,52 +485,140 @@ def run(ck: core.Check):
     for sh in [None, [], [2], ["N"]]:
         types.append(["t", "py:str", sh])
         types.append(["t", "str:q", sh])  # alias spelling of int64
-    real_types = [env.mk(t) for t in types]
-    id_types = [env.enc(t) for t in real_types]
     n = len(types)
-    real_sub = [[bool(a._subtype(b)) for b in real_types] for a in real_types]
-    ck.count(None, n * n)
+    plain = [t for t in types if skeleton(t)[1][0] == "t"]
+    code_name = {int(v): k for k, v in env.onnx.TensorProto.DataType.items()}
 
-    # brute-force "common runtime value" by bit masks over all concrete tensors of rank <= R
-    codes = {}
-    for t in types:
-        leaf = skeleton(t)[1]
-        if leaf[0] == "t" and leaf[1] not in codes:
-            codes[leaf[1]] = int(env.spox._utils.dtype_to_tensor_type(env.spell[leaf[1]]))
-    uni = Universe(sorted(set(codes.values())), R)
-    desc = []
-    for t in types:
-        w, leaf = skeleton(t)
-        desc.append(None if leaf[0] == "any" else (w, uni.mask(codes[leaf[1]], leaf[2])))
-    n_or = 0
-    for i in range(n):
-        di = desc[i]
-        if di is None:
-            continue
-        for j in range(n):
-            dj = desc[j]
-            if dj is None:
+    # ---------------------------------------------------------------- element types (public constructor only)
+    def facet_spellings():
+        by_code: dict = {}
+        for r in table["spellings"]:
+            bad = check_refusal(env, r["name"], r["defined"])
+            ck.count(("refusal", r["name"]))
+            if bad:
+                ck.failure(f"{bad[0]}:{r['name']}", bad[1], {"check": "refusal", "name": r["name"], "defined": r["defined"]})
+            if r["defined"]:
+                try:
+                    by_code.setdefault(onnx_code_of(env, env.spell[r["name"]]), []).append(r["name"])
+                except Exception:  # noqa: BLE001
+                    pass
+        n_pairs = 0
+        for code, names in sorted(by_code.items()):
+            for s1, s2 in itertools.combinations(names, 2):
+                shape = rng.choice([None, (), (2, "N"), (None,)])
+                bad = check_spelling_pair(env, s1, s2, shape)
+                n_pairs += 1
+                if bad and not bad[0].startswith("spelling:construct-error"):
+                    ck.failure(f"{bad[0]}:{code_name.get(code, code)}", bad[1],
+                               {"check": "spelling", "s1": s1, "s2": s2, "shape": None if shape is None else list(shape)})
+            ck.count(("spelling-group", code), len(names))
+        ck.cov["spelling_pairs_compared"] = n_pairs
+        if len(by_code) < 10:
+            ck.broken("generator", "C13 spelling table", f"only {len(by_code)} accepted element types")
+
+    guard("element-type spellings", facet_spellings)
+
+    # ---------------------------------------------------------------- ONNX round trip (anchored methods, then public path)
+    def facet_roundtrip():
+        for ty in rt_types:
+            bad = check_roundtrip(env, ty)
+            ck.count(("roundtrip", repr(ty)))
+            if bad:
+                ck.failure(bad[0], bad[1], {"check": "roundtrip", "type": ty})
+        ck.cov["roundtrip_types"] = len(rt_types)
+
+    guard("_to_onnx/_from_onnx round trip", facet_roundtrip)
+
+    def facet_roundtrip_public():
+        classic = {r["name"] for r in table["spellings"] if r["defined"]}
+        todo = []
+        for r in table["spellings"]:
+            if r["name"] in classic:
+                try:
+                    if onnx_code_of(env, env.spell[r["name"]]) <= 16:
+                        todo.append(["t", r["name"], rng.choice([[], [2, "N"], [None, 3]])])
+                except Exception:  # noqa: BLE001
+                    pass
+        for e in E:
+            todo.extend(["t", e, sh] for sh in shapes if sh is not None)
+        skipped = 0
+        found = []
+        for ty in todo:
+            bad = check_roundtrip_public(env, ty)
+            ck.count(("roundtrip-public", repr(ty)))
+            if bad and bad[0] == "roundtrip:raises":
+                skipped += 1
+            if bad:
+                found.append((bad, ty))
+        ck.cov["roundtrip_public_path"] = {"types": len(todo), "raised": skipped}
+        if todo and skipped > len(todo) // 2:
+            # build/inline themselves are out of order: not a statement about the type layer
+            ck.broken("correspondence", "C13 public round-trip path", f"{skipped} of {len(todo)} types refused by build/inline")
+            found[:] = [f for f in found if f[0][0] != "roundtrip:raises"]
+        for bad, ty in found:
+            ck.failure(bad[0], bad[1], {"check": "roundtrip_public", "type": ty})
+
+    guard("public round trip (build -> inline)", facet_roundtrip_public)
+
+    # ---------------------------------------------------------------- _subtype: pairwise sweep
+    state = {}
+
+    def facet_subtype():
+        real_types = [env.mk(t) for t in types]
+        state["id_types"] = [env.enc(t) for t in real_types]
+        subs = [internal(a, "_subtype") for a in real_types]
+        state["real_sub"] = [[bool(f(b)) for b in real_types] for f in subs]
+        ck.count(None, n * n)
+
+    def facet_common_value():
+        codes = {}
+        for t in types:
+            leaf = skeleton(t)[1]
+            if leaf[0] == "t" and leaf[1] not in codes:
+                codes[leaf[1]] = onnx_code_of(env, env.spell[leaf[1]])
+        uni = Universe(sorted(set(codes.values())), R)
+        desc = []
+        for t in types:
+            w, leaf = skeleton(t)
+            desc.append(None if leaf[0] == "any" else (w, uni.mask(codes[leaf[1]], leaf[2])))
+        state["desc"] = desc
+
+    guard("_subtype sweep", facet_subtype)
+    guard("common-value universe", facet_common_value)
+
+    def facet_subtype_oracle():
+        real_sub, desc = state["real_sub"], state["desc"]
+        n_or = 0
+        for i in range(n):
+            if desc[i] is None:
                 continue
-            want = di[0] == dj[0] and (di[1] & dj[1]) != 0
-            n_or += 1
-            if real_sub[i][j] != want:
-                bad = check_subtype(env, types[i], types[j])
-                if bad:
-                    ck.failure(bad[0], bad[1], {"check": "subtype", "a": types[i], "b": types[j]})
-    for i in range(n):
-        ck.count(("subtype-row", repr(types[i])), 0)
-    ck.cov["subtype_pairs_vs_common_value"] = n_or
+            for j in range(n):
+                if desc[j] is None:
+                    continue
+                want = desc[i][0] == desc[j][0] and (desc[i][1] & desc[j][1]) != 0
+                n_or += 1
+                if real_sub[i][j] != want:
+                    bad = check_subtype(env, types[i], types[j])
+                    if bad:
+                        ck.failure(bad[0], bad[1], {"check": "subtype", "a": types[i], "b": types[j]})
+        for i in range(n):
+            ck.count(("subtype-row", repr(types[i])), 0)
+        ck.cov["subtype_pairs_vs_common_value"] = n_or
 
-    if drv:
-        out = drv.ask_many("C13", [{"op": "sub", "types": id_types}])[0]
+    if "real_sub" in state and "desc" in state:
+        guard("_subtype vs common value", facet_subtype_oracle)
+
+    def facet_subtype_corr():
+        out = drv.ask_many("C13", [{"op": "sub", "types": state["id_types"]}])[0]
         if "error" in out:
             note("sub", str(out))
-        else:
-            flat = "".join("1" if v else "0" for row in real_sub for v in row)
-            if out["sub"] != flat:
-                k = next(i for i in range(n * n) if out["sub"][i] != flat[i])
-                note("sub", f"{types[k // n]} _subtype {types[k % n]}: model {out['sub'][k]} real {flat[k]}")
-            # the specification-side `compat` against the brute-force search (ties the spec definition too)
+            return
+        flat = "".join("1" if v else "0" for row in state["real_sub"] for v in row)
+        if out["sub"] != flat:
+            k = next(i for i in range(n * n) if out["sub"][i] != flat[i])
+            note("sub", f"{types[k // n]} _subtype {types[k % n]}: model {out['sub'][k]} real {flat[k]}")
+        desc = state.get("desc")
+        if desc:  # the specification-side `compat` against the brute-force search
             for i in range(n):
                 for j in range(n):
                     if desc[i] is None or desc[j] is None:
@@ -504,26 +626,35 @@ def run(ck: core.Check):
                     want = desc[i][0] == desc[j][0] and (desc[i][1] & desc[j][1]) != 0
                     if (out["compat"][i * n + j] == "1") != want:
                         note("sub", f"spec compat {types[i]} {types[j]}: model {out['compat'][i * n + j]} brute-force {want}")
-                        break
+                        return
 
-    # --- Shape.__le__ and Shape.broadcast over all shape pairs
-    Shape, ShapeError = env.sh.Shape, env.sh.ShapeError
-    rshapes = [Shape.from_simple(None if s is None else tuple(s)) for s in shapes]
-    m = len(shapes)
-    real_le = "".join("1" if (a <= b) else "0" for a in rshapes for b in rshapes)
-    real_bc = []
-    for a in rshapes:
-        for b in rshapes:
-            try:
-                c = a.broadcast(b).to_simple()
-                real_bc.append([None if c is None else list(c)])
-            except ShapeError:
-                real_bc.append("ShapeError")
-            except Exception as e:  # noqa: BLE001
-                real_bc.append(type(e).__name__)
-    ck.count(None, 2 * m * m)
-    if drv:
+    if drv and "real_sub" in state:
+        guard("_subtype correspondence", facet_subtype_corr)
+
+    # ---------------------------------------------------------------- Shape.__le__ / Shape.broadcast
+    def facet_shapes_real():
+        Shape, ShapeError = internal(env.sh, "Shape"), internal(env.sh, "ShapeError")
+        rshapes = [internal(Shape, "from_simple")(None if s is None else tuple(s)) for s in shapes]
+        state["real_le"] = "".join("1" if (a <= b) else "0" for a in rshapes for b in rshapes)
+        real_bc = []
+        for a in rshapes:
+            f = internal(a, "broadcast")
+            for b in rshapes:
+                try:
+                    c = f(b).to_simple()
+                    real_bc.append([None if c is None else list(c)])
+                except ShapeError:
+                    real_bc.append("ShapeError")
+                except Exception as e:  # noqa: BLE001
+                    real_bc.append(type(e).__name__)
+        state["real_bc"] = real_bc
+        ck.count(None, 2 * m * m)
+
+    guard("Shape.__le__/Shape.broadcast sweep", facet_shapes_real)
+
+    def facet_shapes_corr():
         o1, o2 = drv.ask_many("C13", [{"op": "le", "shapes": shapes}, {"op": "bc", "shapes": shapes}])
+        real_le, real_bc = state["real_le"], state["real_bc"]
         if "error" in o1 or o1["le"] != real_le:
             k = next((i for i in range(m * m) if "le" in o1 and o1["le"][i] != real_le[i]), 0)
             note("le", f"{shapes[k // m]} <= {shapes[k % m]}: model {o1.get('le', o1)[k]} real {real_le[k]}")
@@ -536,7 +667,10 @@ def run(ck: core.Check):
                     if mism["bc"] > 3:
                         break
 
-    # --- numpy's rule: npBroadcast vs np.broadcast_shapes on all concrete pairs (and the oracle's cache)
+    if drv and "real_bc" in state:
+        guard("Shape correspondence", facet_shapes_corr)
+
+    # ---------------------------------------------------------------- numpy's rule + broadcast oracle
     cs = conc_shapes(R)
     np_cache = {}
     for x in cs:
@@ -545,68 +679,77 @@ def run(ck: core.Check):
                 np_cache[(x, y)] = tuple(int(v) for v in np.broadcast_shapes(x, y))
             except ValueError:
                 np_cache[(x, y)] = None
-    if drv:
+
+    def facet_np():
         o = drv.ask_many("C13", [{"op": "np", "shapes": [list(x) for x in cs]}])[0]
         if "error" in o:
             note("np", str(o))
-        else:
-            k = 0
-            for x in cs:
-                for y in cs:
-                    got = o["np"][k]
-                    want = np_cache[(x, y)]
-                    if (None if got is None else tuple(got)) != want:
-                        note("np", f"npBroadcast {x} {y}: model {got} numpy {want}")
-                    k += 1
-    ck.count(None, len(cs) ** 2)
+            return
+        k = 0
+        for x in cs:
+            for y in cs:
+                got = o["np"][k]
+                want = np_cache[(x, y)]
+                if (None if got is None else tuple(got)) != want:
+                    note("np", f"npBroadcast {x} {y}: model {got} numpy {want}")
+                k += 1
+        ck.count(None, len(cs) ** 2)
 
-    # --- broadcast oracle: every shape pair, every concretisation
-    n_bc = 0
-    bc_fail = 0
-    for a in shapes:
-        for b in shapes:
-            bad = check_broadcast(env, a, b, np_cache)
-            n_bc += 1
-            if bad:
-                bc_fail += 1
-                ck.failure(bad[0], bad[1], {"check": "broadcast", "a": a, "b": b})
-    for s in shapes:
-        ck.count(("broadcast-row", repr(s)), 0)
-    ck.cov["broadcast_pairs_vs_numpy"] = n_bc
-
-    # --- ONNX forms: model toOnnx / fromOnnx vs the real ones
-    rt_ids, rt_real = [], []
-    for ty in rt_types + [["any"], ["s", ["any"]]]:
-        try:
-            t = env.mk(ty)
-        except Exception:  # noqa: BLE001
-            continue
-        rt_ids.append(env.enc(t))
-        try:
-            p = t._to_onnx()
-            pj = env.enc_proto(p)
-            try:
-                back = env.enc(env.ts.Type._from_onnx(p))
-            except Exception:  # noqa: BLE001
-                back = None
-        except Exception:  # noqa: BLE001
-            pj, back = None, None
-        rt_real.append({"p": pj, "t": back})
-    protos = [["empty"], ["s", ["empty"]], ["o", ["s", ["empty"]]]]
-    all_codes = [r["code"] for r in table["codes"]]
-    for c in all_codes:
-        for sh in [None, [], [2, "N", None, ""], [""]]:
-            protos.append(["t", c, sh])
-    for w in WRAPS:
-        protos.append(wrap(["t", rng.choice(all_codes), rng.choice([None, [3, "", None]])], w))
-    real_from = []
-    for pj in protos:
-        try:
-            real_from.append(env.enc(env.ts.Type._from_onnx(env.mk_proto(pj))))
-        except Exception:  # noqa: BLE001
-            real_from.append(None)
-    ck.count(None, len(rt_ids) + len(protos))
     if drv:
+        guard("npBroadcast vs numpy", facet_np)
+
+    def facet_broadcast_oracle():
+        n_bc = 0
+        for a in shapes:
+            for b in shapes:
+                bad = check_broadcast(env, a, b, np_cache)
+                n_bc += 1
+                if bad:
+                    ck.failure(bad[0], bad[1], {"check": "broadcast", "a": a, "b": b})
+        for s in shapes:
+            ck.count(("broadcast-row", repr(s)), 0)
+        ck.cov["broadcast_pairs_vs_numpy"] = n_bc
+
+    guard("Shape.broadcast vs numpy", facet_broadcast_oracle)
+
+    # ---------------------------------------------------------------- ONNX forms: model toOnnx / fromOnnx vs the real ones
+    def facet_onnx_forms():
+        rt_ids, rt_real = [], []
+        from_onnx = internal(env.ts.Type, "_from_onnx")
+        for ty in rt_types + [["any"], ["s", ["any"]]]:
+            try:
+                t = env.mk(ty)
+            except Exception:  # noqa: BLE001
+                continue
+            rt_ids.append(env.enc(t))
+            to_onnx = internal(t, "_to_onnx")
+            try:
+                pr = to_onnx()
+                pj = env.enc_proto(pr)
+                try:
+                    back = env.enc(from_onnx(pr))
+                except Exception:  # noqa: BLE001
+                    back = None
+            except Exception:  # noqa: BLE001
+                pj, back = None, None
+            rt_real.append({"p": pj, "t": back})
+        protos = [["empty"], ["s", ["empty"]], ["o", ["s", ["empty"]]]]
+        all_codes = [r["code"] for r in table["codes"]]
+        for c in all_codes:
+            for sh in [None, [], [2, "N", None, ""], [""]]:
+                protos.append(["t", c, sh])
+        for w in WRAPS:
+            protos.append(wrap(["t", rng.choice(all_codes), rng.choice([None, [3, "", None]])], w))
+        real_from = []
+        for pj in protos:
+            try:
+                real_from.append(env.enc(from_onnx(env.mk_proto(pj))))
+            except Exception:  # noqa: BLE001
+                real_from.append(None)
+        ck.count(None, len(rt_ids) + len(protos))
+        ck.cov["onnx_forms_compared"] = len(rt_ids) + len(protos)
+        if not drv:
+            return
         o1, o2 = drv.ask_many("C13", [{"op": "rt", "types": rt_ids}, {"op": "from", "protos": protos}])
         if "error" in o1:
             note("rt", str(o1))
@@ -625,36 +768,46 @@ def run(ck: core.Check):
                     if mism["from"] > 3:
                         break
 
-    # --- the call boundary (inline): seeded sample of pairs, half of them compatible
-    plain = [t for t in types if skeleton(t)[1][0] == "t"]
-    n_inl = ck.pick(60, 600)
-    inl_stats = {"compatible": 0, "incompatible": 0}
-    for k in range(n_inl):
-        a = rng.choice(plain)
-        b = rng.choice(plain)
-        if k % 2 == 0:  # steer towards near-misses: same skeleton and element type
-            wa, la = skeleton(a)
-            cand = [t for t in plain if skeleton(t)[0] == wa and skeleton(t)[1][1] == la[1]]
-            b = rng.choice(cand)
-        try:
-            bad = check_inline_boundary(env, a, b)
-        except Exception as e:  # noqa: BLE001  (a model input type spox refuses to build is not a verdict)
-            ck.notes.append(f"inline boundary case skipped: {type(e).__name__}")
-            continue
-        ck.count(("inline", repr(a), repr(b)))
-        inl_stats["compatible" if has_common_value(env, a, b) else "incompatible"] += 1
-        if bad:
-            ck.failure(bad[0], bad[1], {"check": "inline", "a": a, "b": b})
+    guard("_to_onnx/_from_onnx correspondence", facet_onnx_forms)
+
+    # ---------------------------------------------------------------- the call boundary (public API: inline)
+    inl_stats = {"compatible": 0, "incompatible": 0, "skipped": 0}
+
+    def facet_inline():
+        # more cases when the direct sweep of _subtype could not be observed
+        n_inl = ck.pick(60, 600) * (5 if "_subtype sweep" in unobservable else 1)
+        for k in range(n_inl):
+            a = rng.choice(plain)
+            b = rng.choice(plain)
+            if k % 2 == 0:  # steer towards near-misses: same skeleton and element type
+                wa, la = skeleton(a)
+                cand = [t for t in plain if skeleton(t)[0] == wa and skeleton(t)[1][1] == la[1]]
+                b = rng.choice(cand)
+            try:
+                bad = check_inline_boundary(env, a, b)
+            except Exception as e:  # noqa: BLE001  (a model input type spox refuses to build is not a verdict)
+                inl_stats["skipped"] += 1
+                if inl_stats["skipped"] <= 3:
+                    ck.notes.append(f"inline boundary case skipped: {type(e).__name__}: {e}")
+                continue
+            ck.count(("inline", repr(a), repr(b)))
+            inl_stats["compatible" if has_common_value(env, a, b) else "incompatible"] += 1
+            if bad:
+                ck.failure(bad[0], bad[1], {"check": "inline", "a": a, "b": b})
+        if inl_stats["skipped"] > n_inl // 2:
+            ck.broken("correspondence", "C13 inline call boundary not observable", f"{inl_stats['skipped']} of {n_inl} cases raised")
+
+    guard("inline call boundary", facet_inline)
 
     ck.cov.update({
         "correspondence_mismatches": mism,
+        "facets_not_observable": sorted(unobservable),
         "inline_boundary_cases": inl_stats,
         "types_in_pairwise_sweep": n,
         "shapes_in_pairwise_sweep": m,
         "rank_bound": R,
         "rank_bound_under_nesting": RN,
         "concrete_shape_pairs_vs_numpy": len(cs) ** 2,
-        "onnx_forms_compared": len(rt_ids) + len(protos),
     })
     ck.exhaustive = True
     ck.rule = (
@@ -681,7 +834,11 @@ def replay(ck: core.Check, doc) -> bool:
         return bool(ck.broken_items or ck.failures)
     env = Env(dtypes.tabulate())
     case = doc["case"]
-    bad = CHECKS[case["check"]](env, case)
+    try:
+        bad = CHECKS[case["check"]](env, case)
+    except NotObservable as e:
+        print(f"not observable on this tree: {e}")
+        bad = ("not-observable", str(e))
     if bad:
         print(f"{bad[0]}: {bad[1]}")
     return bool(bad)
